@@ -498,6 +498,7 @@ func TestFixedSpecs(t *testing.T) {
 	for _, s := range specs {
 		o, err := checkSpec(s, true)
 		rec.Case(s, true, "fixed", "status_"+o.status)
+		rec.Sample("fixed_"+o.status, s)
 		if err != nil {
 			rec.Fail(t, "spec", input{Spec: s}, "%v", err)
 		}
